@@ -48,6 +48,14 @@ Round 7: calls of `_run` (and of the helpers of its module) to functions of the 
    run-space specification the record of keys seen so far grows only by key sets a raising overlap test has compared
    with it - every mapping, in the state in which it is remembered - and by all of them
    (C17-D1-cross-block-keys-rejected).
+Round 8: parser and `_run` prefer the same run-space block - the ordered places each consults (top level, nested under
+   `pipeline`) are computed as a first-match chain over reaching definitions and compared, and a block `_run` creates or
+   replaces goes where the parser looks first (C17-D1-run-space-block-precedence-agrees); the helper that applies a
+   caller-supplied key path to the configuration (--set) stores only over an edge that established the entry exists
+   (C17-D1-override-replaces-existing-only); whether a signature parameter is listed in the `parameters` metadata is
+   decided by name and kind only, followed into the functions whose result the metadata builder walks
+   (C17-D4-parameter-metadata-lists-every-parameter).  `_run`, the loaders that exit themselves, the block parser, the
+   data-flow validator and its compatibility test are found by role, not by name.
 """
 from __future__ import annotations
 
@@ -123,9 +131,19 @@ def _positional_calls(repo: Repo, mod, fn: ast.AST) -> int:
     return moved
 
 
+def _run_function(repo: Repo) -> ast.AST:
+    """The `run` sub-command of the CLI module, by what it does: the one function that calls every pre-flight gate
+    (parser, inspection, validation, run-space expansion) - whatever it is called."""
+    mod = repo.module(CLI)
+    cands = [f for _q, f in mod.defs.items() if isinstance(f, FuncNode) and set(GATE_CALLS) <= {call_attr(c) for c in calls_in(f)}]
+    if len(cands) == 1:
+        return cands[0]
+    return repo.func(CLI, "_run")
+
+
 def run(repo: Repo, R: Report) -> None:
     mod = repo.module(CLI)
-    fn = repo.func(CLI, "_run")
+    fn = _run_function(repo)
     for _q, _f in list(mod.defs.items()):
         if isinstance(_f, FuncNode):
             _positional_calls(repo, mod, _f)  # _run and the helpers its normal form inlines
@@ -261,6 +279,8 @@ def run(repo: Repo, R: Report) -> None:
         def form(v: Optional[ast.AST], at: ast.AST) -> bool:
             if isinstance(v, ast.IfExp):
                 return form(v.body, at) and form(v.orelse, at)
+            if isinstance(v, ast.Constant) and v.value is None:
+                return True  # "no block yet": a store into None raises (the flag is not silently lost), like `m.get(k)` below
             base = None
             if isinstance(v, ast.Call) and call_attr(v) == "setdefault" and isinstance(v.func, ast.Attribute):
                 base = dotted_name(v.func.value)
@@ -315,26 +335,26 @@ def run(repo: Repo, R: Report) -> None:
             return None if b is None else b + (e.args[0].value,)
         return None
 
-    ppc = repo.func("semantiva/configurations/load_pipeline_from_yaml.py", "parse_pipeline_config")
-    ppc_cfg = ppc.args.args[0].arg
-    parser_paths: Set[Tuple[str, ...]] = set()
-    for c in calls_in(ppc):
-        if call_attr(c) == "_parse_run_space_block" and c.args:
-            srcs = assigned_value(ppc, c.args[0].id) if isinstance(c.args[0], ast.Name) else [c.args[0]]
-            for v in srcs:
-                kp = key_path(v, ppc_cfg)
-                if kp:
-                    parser_paths.add(kp)
+    parser_chain, block_site = _parser_block_chain(repo, mod, fn)
+    parser_paths: Set[Tuple[str, ...]] = {p for p, _k in parser_chain}
     if not parser_paths:
         raise AnalysisError("parse_pipeline_config: where the run-space block is read from was not recognised")
     rs_holders = {a.targets[0].value.id for a in assigns if isinstance(a.targets[0], ast.Subscript) and isinstance(a.targets[0].value, ast.Name) and isinstance(a.targets[0].slice, ast.Constant) and a.targets[0].slice.value in ("max_runs", "dry_run") and _feeds_config(fn, a.targets[0].value.id, CONFIG)}
     for holder in sorted(rs_holders):
         cli_paths = {kp for v in assigned_value(fn, holder) for kp in [key_path(v, CONFIG)] if kp}
+        # flow-sensitively (a sub-mapping named by a local: `p = config.get("pipeline"); .. p.get("run_space")`)
+        _bc = _BlockChain(fn, g, CONFIG)
+        for a in assigns:
+            t = a.targets[0]
+            if isinstance(t, ast.Subscript) and isinstance(t.value, ast.Name) and t.value.id == holder and isinstance(t.slice, ast.Constant) and t.slice.value in ("max_runs", "dry_run") and g.nodes_for(a):
+                cli_paths |= {p_ for p_, _k in (_bc.chain(t.value, g.nodes_for(a)[0]) or [])}
         missing_paths = sorted(parser_paths - cli_paths)
         R.check(not missing_paths, r_attach, CLI, "_run", f"run-space flags are applied to the block the parser reads ({sorted('.'.join(p) for p in parser_paths)})", f"the parser takes the run-space block from {['.'.join(p) for p in missing_paths]} when the top-level one is absent, but the CLI never looks there before writing the flag into a block of its own: with a run space declared at {['.'.join(p) for p in missing_paths]}, `--run-space-max-runs` / `--run-space-dry-run` create a top-level block that shadows it - the declared plan vanishes and an over-cap configuration is executed", fn.lineno)
+    block_precedence_rule(repo, R, fn, g, CONFIG, parser_chain, block_site, assigns)
     parse_call = next((c for c in calls_in(fn) if call_attr(c) == "parse_pipeline_config"), None)
     R.check(parse_call is not None and parse_call.args and dotted_name(parse_call.args[0]) == CONFIG, r_attach, CLI, "_run", "parse_pipeline_config(config, ...)", "the parsed object is not the merged configuration", fn.lineno)
     config_complete_rule(repo, R, mod, fn, g, CONFIG)
+    override_replaces_existing_rule(repo, R, mod, fn, CONFIG)
 
     # ---------------------------------------------------------------- D2 exit codes
     r_codes = R.rule("C17-D2-exit-codes", "EXIT_* constants carry the documented numbers; every return of _run is one of them (or exit_code); helpers exit with them", 10)
@@ -346,12 +366,21 @@ def run(repo: Repo, R: Report) -> None:
         if isinstance(n, ast.Return):
             d = dotted_name(n.value) if n.value is not None else None
             R.check(d in DOCUMENTED_CODES or d == EXITVAR, r_codes, CLI, "_run", norm(n), "return value is not an EXIT_* constant", n.lineno)
-    ly = repo.func(CLI, "_load_yaml")
-    for h in [x for x in ast.walk(ly) if isinstance(x, ast.ExceptHandler)]:
-        tname = ast.unparse(h.type) if h.type is not None else ""
-        want = "EXIT_FILE_ERROR" if "FileNotFoundError" in tname else "EXIT_CONFIG_ERROR"
-        codes = [dotted_name(c.args[0]) for c in ast.walk(h) if isinstance(c, ast.Call) and call_attr(c) == "SystemExit" and c.args]
-        R.check(codes == [want], r_codes, CLI, "_load_yaml", norm(h), f"{tname} does not exit with {want}", h.lineno)
+    # the loaders _run calls that end the process themselves (found by that: a helper of the module, called from _run,
+    # whose exception handlers raise SystemExit)
+    loaders = []
+    for c in calls_in(fn):
+        for m_, t_ in repo.resolve_call(mod, c):
+            if m_ is mod and isinstance(t_, FuncNode) and t_ is not fn and t_ not in loaders and any(isinstance(x, ast.Call) and call_attr(x) == "SystemExit" for h in ast.walk(t_) if isinstance(h, ast.ExceptHandler) for x in ast.walk(h)):
+                loaders.append(t_)
+    if not loaders:
+        loaders = [repo.func(CLI, "_load_yaml")]
+    for ly in loaders:
+        for h in [x for x in ast.walk(ly) if isinstance(x, ast.ExceptHandler)]:
+            tname = ast.unparse(h.type) if h.type is not None else ""
+            want = "EXIT_FILE_ERROR" if "FileNotFoundError" in tname else "EXIT_CONFIG_ERROR"
+            codes = [dotted_name(c.args[0]) for c in ast.walk(h) if isinstance(c, ast.Call) and call_attr(c) == "SystemExit" and c.args]
+            R.check(codes == [want], r_codes, CLI, ly.name, norm(h), f"{tname} does not exit with {want}", h.lineno)
     # class -> code for the gates of _run
     want_by_gate = {"parse_pipeline_config": "EXIT_CONFIG_ERROR", "build_pipeline_inspection": "EXIT_CONFIG_ERROR", "validate_pipeline": "EXIT_CONFIG_ERROR", "expand_run_space": "EXIT_CONFIG_ERROR"}
     for name, want in want_by_gate.items():
@@ -401,6 +430,9 @@ def run(repo: Repo, R: Report) -> None:
     # ---------------------------------------------------------------- D4 dependency on inspection
     from . import c02
 
+    # own rule first: a changed shape of the metadata builders that C02's re-applied rules cannot read must not hide a
+    # verdict that is already decidable here
+    metadata_lists_every_parameter_rule(repo, R)
     R.rule_prefix = "C17-D4/"
     try:
         c02.required_keys_rule(repo, R)
@@ -616,6 +648,27 @@ def _implies_legit(test: ast.AST, polarity: bool, legit: Set[str]) -> bool:
     return False
 
 
+def _validator_roles(repo: Repo) -> Tuple[str, str]:
+    """(data-flow validation function, compatibility test) of the validator module, found by what they do: the function
+    (called from validate_pipeline) that hands `<pred>.output_type` and `<node>.input_type` to a function of the package,
+    and that function - whatever the two are called."""
+    from ..engine import qualname_of
+
+    vmod = repo.module(VALIDATOR)
+    found: List[Tuple[str, str]] = []
+    for qn, f in vmod.defs.items():
+        if not isinstance(f, FuncNode):
+            continue
+        for c in calls_in(f):
+            attrs = [a.attr for a in list(c.args) + [k.value for k in c.keywords] if isinstance(a, ast.Attribute)]
+            if "output_type" in attrs and "input_type" in attrs and isinstance(c.func, ast.Name):
+                if any(isinstance(t, FuncNode) for _m, t in repo.resolve_call(vmod, c)) and (qn, c.func.id) not in found:
+                    found.append((qn, c.func.id))
+    if len(found) == 1:
+        return found[0]
+    return "_validate_data_flow_compatibility", "_is_compatible"
+
+
 def validation_gate_rule(repo: Repo, R: Report) -> None:
     """`_DataNode._process` raises TypeError for *every* node whose input type is not a superclass of
     the data it receives.  The CLI stops such a configuration before execution only if the validator
@@ -625,11 +678,11 @@ def validation_gate_rule(repo: Repo, R: Report) -> None:
     from ..pat import find
 
     r = R.rule("C17-D4-validation-covers-typed-nodes", "in the data-flow validation loop every node reaches the compatibility test unless its input type is None or there is no typed predecessor (no other way round the test), and an incompatible pair reaches the statement that records a node error; validate_pipeline runs that validation before it collects and raises the recorded errors", 2)
-    fname = "_validate_data_flow_compatibility"
-    vf = nfunc(repo, VALIDATOR, fname, keep=("_is_compatible",), consts=False)
-    hits = [(n, e) for n, e in find(vf, "_is_compatible(_P_.output_type, _N_.input_type)", nested=False)]
+    fname, cname = _validator_roles(repo)
+    vf = nfunc(repo, VALIDATOR, fname, keep=(cname,), consts=False)
+    hits = [(n, e) for n, e in find(vf, f"{cname}(_P_.output_type, _N_.input_type)", nested=False)]
     if len(hits) != 1:
-        raise AnalysisError(f"{fname}: expected one _is_compatible(<pred>.output_type, <node>.input_type) test, found {len(hits)}")
+        raise AnalysisError(f"{fname}: expected one {cname}(<pred>.output_type, <node>.input_type) test, found {len(hits)}")
     comp, env = hits[0]
     P, N = ast.unparse(env["_P_"]), ast.unparse(env["_N_"])
     loop = next((a for a in _anc(comp) if isinstance(a, ast.For)), None)
@@ -918,10 +971,13 @@ def _run_normal_form(repo: Repo, fn: ast.AST) -> ast.AST:
     only; control-flow questions are asked on the function as written)."""
     from ..normal import nfunc
 
+    from ..engine import qualname_of
+
+    qn = qualname_of(fn)
     try:
-        return nfunc(repo, CLI, "_run", consts=False, copyprop="all")
+        return nfunc(repo, CLI, qn, consts=False, copyprop="all")
     except AnalysisError:
-        return nfunc(repo, CLI, "_run", inline=False, consts=False, copyprop="all")
+        return nfunc(repo, CLI, qn, inline=False, consts=False, copyprop="all")
 
 
 def _missing_role(tree: ast.AST, fn: ast.AST) -> Optional[str]:
@@ -1573,7 +1629,7 @@ def compat_test_rule(repo: Repo, R: Report) -> None:
     from ..normal import nfunc
 
     r = R.rule("C17-D4-validation-accepts-only-gate-accepted", "the compatibility test the data-flow validation applies to (predecessor.output_type, node.input_type) answers 'compatible' only on a path that established output == input or issubclass(output, input) - what the run-time gate issubclass(type(data), input_type) of the node accepts for every instance of the declared output type; it has no other accepting branch (reverse direction, common base, exception fallback)", 1)
-    fname = "_validate_data_flow_compatibility"
+    fname = _validator_roles(repo)[0]
     vmod = repo.module(VALIDATOR)
     vf = repo.func(VALIDATOR, fname)
     sites: List[Tuple[ast.Call, ast.AST, str, str]] = []
@@ -3386,3 +3442,614 @@ def cross_block_keys_rule(repo: Repo, R: Report) -> None:
                 R.violation(r, *rest)
     if n_sites == 0:
         raise AnalysisError("expand_run_space: no loop over the blocks of the run-space specification (`for .. in <spec>.blocks`) found in it or in the functions of its module it calls")
+
+
+# ---------------------------------------------------------------------------------------------
+# round 8: parser and CLI prefer the same run-space block; --set replaces existing entries only;
+#          the `parameters` metadata lists a parameter whatever its annotation / default
+# ---------------------------------------------------------------------------------------------
+def _cfg_node_of(g: CFG, sub: ast.AST) -> Optional[int]:
+    """The CFG node whose evaluated part contains the expression / statement *sub*."""
+    for n in g.nodes:
+        ev = n.part if n.part is not None else (n.ast if n.kind == "stmt" else None)
+        if ev is not None and any(x is sub for x in ast.walk(ev)):
+            return n.id
+    return None
+
+
+def _is_copy_of(e: ast.AST) -> Optional[ast.AST]:
+    """`dict(x)`, `x.copy()`, `copy.copy(x)`, `copy.deepcopy(x)`, `cast(T, x)`: the operand - the same keys under the same paths."""
+    if not isinstance(e, ast.Call) or e.keywords:
+        return None
+    d = (call_name(e) or "").split(".")[-1]
+    if d in ("dict", "OrderedDict") and len(e.args) == 1 and isinstance(e.func, ast.Name):
+        return e.args[0]
+    if d in ("copy", "deepcopy") and len(e.args) == 1 and not (isinstance(e.func, ast.Attribute) and isinstance(e.func.value, ast.Name) and e.func.value.id != "copy"):
+        return e.args[0]
+    if d == "copy" and not e.args and isinstance(e.func, ast.Attribute):
+        return e.func.value
+    if d == "cast" and len(e.args) == 2:
+        return e.args[1]
+    return None
+
+
+class _BlockChain:
+    """Where a value is looked up in a (nested) mapping rooted at the local *root*, as an ordered first-match list of
+    ((key, ...), "read" | "create"): `c.get(k)` / `c[k]` -> one location; `c.get(k, D)`, `A or B`,
+    `A if <test on A> else B` -> the locations of A, then those of the fallback; a local -> its reaching definitions (one,
+    or a first definition followed by re-definitions each of which is reachable only over an edge that established that
+    the local was None / falsy); `c.setdefault(k, ..)` -> read, else create."""
+
+    def __init__(self, fn: ast.AST, g: CFG, root: str):
+        self.fn, self.g, self.root = fn, g, root
+
+    def _plain_value(self, d, name: str) -> Optional[ast.AST]:
+        a = d.ast
+        if d.kind != "stmt":
+            return None
+        if isinstance(a, ast.Assign) and len(a.targets) == 1 and isinstance(a.targets[0], ast.Name) and a.targets[0].id == name:
+            return a.value
+        if isinstance(a, ast.AnnAssign) and isinstance(a.target, ast.Name) and a.target.id == name and a.value is not None:
+            return a.value
+        return None
+
+    def path(self, e: Optional[ast.AST], at: int, depth: int = 0) -> Optional[Tuple[str, ...]]:
+        if e is None or depth > 8:
+            return None
+        if isinstance(e, ast.Name):
+            if e.id == self.root:
+                return ()
+            defs = reaching_defs(self.g, e.id, at)
+            if len(defs) != 1:
+                return None
+            v = self._plain_value(defs[0], e.id)
+            return None if v is None else self.path(v, defs[0].id, depth + 1)
+        if isinstance(e, ast.Subscript) and isinstance(e.slice, ast.Constant) and isinstance(e.slice.value, str):
+            b = self.path(e.value, at, depth + 1)
+            return None if b is None else b + (e.slice.value,)
+        if isinstance(e, ast.Call) and isinstance(e.func, ast.Attribute) and e.func.attr in ("get", "setdefault") and e.args and isinstance(e.args[0], ast.Constant) and isinstance(e.args[0].value, str):
+            b = self.path(e.func.value, at, depth + 1)
+            return None if b is None else b + (e.args[0].value,)
+        inner = _is_copy_of(e)
+        if inner is not None:
+            return self.path(inner, at, depth + 1)
+        if isinstance(e, ast.BoolOp) and isinstance(e.op, ast.Or) and len(e.values) == 2 and isinstance(e.values[1], ast.Dict) and not e.values[1].keys:
+            return self.path(e.values[0], at, depth + 1)  # `c.get(k) or {}`
+        return None
+
+    def _test_paths(self, test: ast.AST, at: int) -> Set[Tuple[str, ...]]:
+        out: Set[Tuple[str, ...]] = set()
+        for x in ast.walk(test):
+            if isinstance(x, (ast.Name, ast.Subscript, ast.Call)):
+                p = self.path(x, at)
+                if p:
+                    out.add(p)
+            if isinstance(x, ast.Compare) and len(x.ops) == 1 and isinstance(x.ops[0], (ast.In, ast.NotIn)) and isinstance(x.left, ast.Constant) and isinstance(x.left.value, str):
+                c = x.comparators[0]
+                if isinstance(c, ast.Call) and isinstance(c.func, ast.Attribute) and c.func.attr == "keys" and not c.args:
+                    c = c.func.value
+                p = self.path(c, at)
+                if p is not None:
+                    out.add(p + (x.left.value,))
+        return out
+
+    def chain(self, e: Optional[ast.AST], at: int, depth: int = 0) -> Optional[List[Tuple[Tuple[str, ...], str]]]:
+        if e is None or depth > 8:
+            return None
+        if isinstance(e, ast.Constant) and e.value is None:
+            return []
+        if isinstance(e, ast.Dict) and not e.keys:
+            return []
+        if isinstance(e, ast.IfExp):
+            cb, co = self.chain(e.body, at, depth + 1), self.chain(e.orelse, at, depth + 1)
+            if cb is None or co is None:
+                return None
+            if not cb or not co:
+                return cb + co
+            if _reads_in_order(cb + co) == _reads_in_order(co + cb):
+                return cb + co  # the same place(s) either way
+            tp = self._test_paths(e.test, at)
+            b_in, o_in = cb[0][0] in tp, co[0][0] in tp
+            if b_in and not o_in:
+                return cb + co
+            if o_in and not b_in:
+                return co + cb
+            return None
+        if isinstance(e, ast.BoolOp) and isinstance(e.op, ast.Or):
+            out: List[Tuple[Tuple[str, ...], str]] = []
+            for v in e.values:
+                c = self.chain(v, at, depth + 1)
+                if c is None:
+                    return None
+                out += c
+            return out
+        if isinstance(e, ast.Name):
+            defs = reaching_defs(self.g, e.id, at)
+            if not defs:
+                return None
+            vals = [(d, self._plain_value(d, e.id)) for d in defs]
+            if any(v is None for _d, v in vals):
+                return None
+            if len(vals) > 1:
+                # a first definition, then re-definitions that happen only when the local was None / falsy
+                after = {d.id: set(self.g.reach([t for t, lab in self.g.succ[d.id] if lab not in (EXC, BASE)])) for d, _v in vals}
+                rank = {d.id: sum(1 for o, _v in vals if o.id != d.id and d.id in after[o.id]) for d, _v in vals}
+                if sorted(rank.values()) != list(range(len(vals))):
+                    return None
+                vals.sort(key=lambda dv: rank[dv[0].id])
+                name = e.id
+
+                def atom(t: ast.AST) -> Optional[bool]:
+                    if isinstance(t, ast.Name) and t.id == name:
+                        return False  # truthy: not None
+                    if isinstance(t, ast.Compare) and len(t.ops) == 1 and isinstance(t.left, ast.Name) and t.left.id == name and isinstance(t.comparators[0], ast.Constant) and t.comparators[0].value is None:
+                        if isinstance(t.ops[0], (ast.Is, ast.Eq)):
+                            return True
+                        if isinstance(t.ops[0], (ast.IsNot, ast.NotEq)):
+                            return False
+                    return None
+                for d, _v in vals[1:]:
+                    prior = [self._plain_value(o, name) for o in reaching_defs(self.g, name, d.id)]
+                    if prior and all(isinstance(pv, ast.Constant) and pv.value is None for pv in prior):
+                        continue  # the local is None here whatever the guard says
+                    holds, _path, guards = returns_only_through(self.g, atom, targets=[d.id])
+                    if not holds or not guards:
+                        return None
+            out = []
+            for d, v in vals:
+                c = self.chain(v, d.id, depth + 1)
+                if c is None:
+                    return None
+                out += c
+            return out
+        if isinstance(e, ast.Call) and isinstance(e.func, ast.Attribute) and e.func.attr in ("get", "setdefault"):
+            p = self.path(e, at)
+            if p is None:
+                return None
+            if e.func.attr == "setdefault":
+                return [(p, "read"), (p, "create")]
+            dflt = e.args[1] if len(e.args) > 1 else kwarg(e, "default")
+            if dflt is None:
+                return [(p, "read")]
+            rest = self.chain(dflt, at, depth + 1)
+            return None if rest is None else [(p, "read")] + rest
+        if isinstance(e, ast.Subscript):
+            p = self.path(e, at)
+            return None if p is None else [(p, "read")]
+        inner = _is_copy_of(e)
+        if inner is not None:
+            return self.chain(inner, at, depth + 1)
+        return None
+
+
+def _reads_in_order(chain: List[Tuple[Tuple[str, ...], str]]) -> List[Tuple[str, ...]]:
+    out: List[Tuple[str, ...]] = []
+    for p, _k in chain:
+        if p not in out:
+            out.append(p)
+    return out
+
+
+def _parser_block_chain(repo: Repo, mod, run_fn: ast.AST):
+    """The configuration parser `_run` calls, and where it takes the run-space block from: the block is the first argument
+    of the call whose result the parser stores as the `run_space` of the parsed configuration (found by that role, not by
+    the name of the block parser).  Returns (ordered locations, (module rel, qualname, block expression))."""
+    from ..engine import qualname_of
+    from ..normal import nfunc
+
+    targets = [(m, f) for c in calls_in(run_fn) if call_attr(c) == "parse_pipeline_config" for m, f in repo.resolve_call(mod, c) if isinstance(f, FuncNode)]
+    if not targets:
+        raise AnalysisError("_run: the configuration parser it calls could not be resolved")
+    pmod, ppc = targets[0]
+    qn = qualname_of(ppc)
+
+    def block_calls(f: ast.AST) -> List[ast.Call]:
+        out: List[ast.Call] = []
+        vals: List[ast.AST] = []
+        for n in walk_no_nested(f):
+            if isinstance(n, ast.Call):
+                vals += [k.value for k in n.keywords if k.arg == "run_space"]
+            elif isinstance(n, ast.Assign) and any(isinstance(t, ast.Attribute) and t.attr == "run_space" for t in n.targets):
+                vals.append(n.value)
+        for v in vals:
+            cands = assigned_value(f, v.id) if isinstance(v, ast.Name) else [v]
+            for c in cands:
+                if isinstance(c, ast.Call) and c.args and any(isinstance(t, FuncNode) for _m, t in repo.resolve_call(pmod, c)):
+                    out.append(c)
+        return out
+
+    raw_calls = block_calls(ppc)
+    if not raw_calls:
+        raise AnalysisError(f"{qn}: the call that converts the run-space block (its result is stored as `run_space` of the parsed configuration) was not found")
+    keep = tuple(sorted({call_attr(c) or "" for c in raw_calls}))
+    try:
+        nf = nfunc(repo, pmod.rel, qn, keep=keep, consts=False)
+        calls = block_calls(nf)
+        if not calls:
+            nf, calls = ppc, raw_calls
+    except AnalysisError:
+        nf, calls = ppc, raw_calls
+    root = ([a.arg for a in ppc.args.posonlyargs + ppc.args.args] or [None])[0]
+    if root is None:
+        raise AnalysisError(f"{qn}: no configuration parameter")
+    g = CFG(nf, may_raise=lambda part: set())
+    bc = _BlockChain(nf, g, root)
+    chains = []
+    for c in calls:
+        at = _cfg_node_of(g, c)
+        ch = bc.chain(c.args[0], at) if at is not None else None
+        if ch is None:
+            raise AnalysisError(f"{qn}: where the run-space block `{norm(c.args[0])[:60]}` is read from was not recognised")
+        chains.append((ch, c))
+    first = chains[0][0]
+    if any(_reads_in_order(ch) != _reads_in_order(first) for ch, _c in chains[1:]):
+        raise AnalysisError(f"{qn}: several conversions of the run-space block read it from different places")
+    bexpr = chains[0][1].args[0]
+    if isinstance(bexpr, ast.Name):
+        dv = assigned_value(nf, bexpr.id)
+        if dv and hasattr(dv[-1], "lineno"):
+            bexpr = dv[-1]
+    return first, (pmod.rel, qn, bexpr)
+
+
+def block_precedence_rule(repo: Repo, R: Report, fn: ast.AST, g: CFG, CONFIG: str, parser_chain, block_site, assigns) -> None:
+    """A configuration can carry a run-space block in more than one place (top level, nested under `pipeline`), and the
+    CLI adds one of its own (`--run-space-file`).  The parser hands exactly one of them to the expansion gate.  The
+    run-space flags (`--run-space-dry-run`, `--run-space-max-runs`) and the override file are gated only if they end up
+    in *that* block: the CLI has to look the block up in the same order of preference as the parser, and has to
+    put a block it creates / replaces at the place the parser looks at first."""
+    r = R.rule("C17-D1-run-space-block-precedence-agrees", "the parser (parse_pipeline_config) and _run prefer the same run-space block when a configuration carries more than one (top level / nested under `pipeline` / --run-space-file): the places _run consults, in order, to find the block it writes --run-space-dry-run / --run-space-max-runs into are the places the parser consults, in the same order, and every block _run itself creates or replaces (--run-space-file, a fresh block for the flags) is stored at the place the parser looks at first - otherwise the flags and the override file land in a block the parser never reads, the dry-run gate and the cap stay open and the runs of the other block execute", 2)
+    prel, pqn, bexpr = block_site
+    want = _reads_in_order(parser_chain)
+    show = lambda ps: " -> ".join(".".join(p) for p in ps) or "(nothing)"
+    bc = _BlockChain(fn, g, CONFIG)
+    seen_holder_chains: Set[Tuple[str, Tuple]] = set()
+    n_sites = 0
+    for a in assigns:
+        t = a.targets[0]
+        if not (isinstance(t, ast.Subscript) and isinstance(t.value, ast.Name) and isinstance(t.slice, ast.Constant) and t.slice.value in ("max_runs", "dry_run") and _feeds_config(fn, t.value.id, CONFIG)):
+            continue
+        ids = g.nodes_for(a)
+        if not ids:
+            continue
+        ch = bc.chain(t.value, ids[0])
+        if ch is None:
+            raise AnalysisError(f"_run: how `{t.value.id}` (receives `{norm(a)[:50]}`) is looked up in the configuration was not recognised")
+        got = _reads_in_order(ch)
+        key = (t.value.id, tuple(got))
+        n_sites += 1
+        if key in seen_holder_chains and got == want:
+            R.ok(r, CLI, "_run", norm(a)[:100], "", a.lineno)
+            continue
+        seen_holder_chains.add(key)
+        if got != want:
+            R.violation(r, prel, pqn, f"run-space block `{norm(bexpr)[:90]}`", f"the parser takes the run-space block from {show(want)} (first one present wins), but _run writes `{norm(a)[:60]}` into the block it finds by looking at {show(got)}: in a configuration that carries a block at both places (a nested `pipeline.run_space` plus --run-space-file / a top-level block) the flag lands in the block the parser does not read - `--run-space-dry-run` executes the other block's runs, `--run-space-max-runs` does not cap them", getattr(bexpr, "lineno", 0))
+        else:
+            R.ok(r, CLI, "_run", norm(a)[:100], "", a.lineno)
+        for p, k in ch:
+            if k == "create":
+                R.check(p == want[0], r, CLI, "_run", f"fresh run-space block for the flags at `{'.'.join(p)}`", f"_run creates the block for the run-space flags at `{'.'.join(p)}`, but the parser looks at `{'.'.join(want[0])}` first", a.lineno)
+    if n_sites == 0:
+        raise AnalysisError("_run: no store of a run-space flag (max_runs / dry_run) into a section of the configuration found")
+    # blocks _run stores itself (the override file)
+    for a in assigns:
+        t = a.targets[0]
+        if not (isinstance(t, ast.Subscript) and isinstance(t.slice, ast.Constant) and isinstance(t.slice.value, str)):
+            continue
+        ids = g.nodes_for(a)
+        if not ids:
+            continue
+        base = bc.path(t.value, ids[0])
+        if base is None:
+            continue
+        p = base + (t.slice.value,)
+        if p not in want:
+            continue
+        R.check(p == want[0], r, CLI, "_run", norm(a)[:100], f"_run stores a run-space block at `{'.'.join(p)}`, but the parser prefers the block at `{'.'.join(want[0])}` ({show(want)}): when both exist the stored block (--run-space-file) and the flags written into it are ignored and the other block's runs execute", a.lineno)
+
+
+def _flows_from(fn: ast.AST, e: ast.AST, sources: Set[str], depth: int = 0) -> bool:
+    """Does the expression read one of *sources* (parameters), directly or through locals of *fn* (for-targets included)?"""
+    if depth > 5:
+        return False
+    for x in ast.walk(e):
+        if not isinstance(x, ast.Name):
+            continue
+        if x.id in sources:
+            return True
+        for v in assigned_value(fn, x.id):
+            if v is not e and _flows_from(fn, v, sources, depth + 1):
+                return True
+        for lp in walk_no_nested(fn):
+            if isinstance(lp, (ast.For, ast.AsyncFor)) and any(isinstance(t, ast.Name) and t.id == x.id for t in ast.walk(lp.target)) and _flows_from(fn, lp.iter, sources, depth + 1):
+                return True
+    return False
+
+
+def override_replaces_existing_rule(repo: Repo, R: Report, mod, fn: ast.AST, CONFIG: str) -> None:
+    """`--set a.b.c=value` replaces a value the configuration contains; a path that does not exist is rejected
+    ("Unknown override key", EXIT_CONFIG_ERROR) before anything is parsed or run.  A helper that stores under a
+    caller-supplied key without having established that the key is there *creates* entries instead: a mistyped
+    `--set run_space.dry-run=true` / `run_space.max_run=1` is swallowed by the block parsers (they ignore unknown keys),
+    the invocation that had to be rejected is executed."""
+    r = R.rule("C17-D1-override-replaces-existing-only", "every store `<part of the configuration>[<key computed from the caller's key path>] = value` in a helper that _run hands the configuration to (the --set override) is reachable only over a branch edge that established that the entry exists - `key in target` (other side raises) for a mapping, `index < len(target)` for a list: an override naming a key the configuration does not contain is rejected with the configuration-error exit, it never creates an entry (a mistyped run_space.dry_run / max_runs override would otherwise be ignored by the parser and the runs execute)", 1)
+    helpers: List[Tuple[object, ast.AST, str, Set[str]]] = []
+
+    def collect(cmod, caller: ast.AST, roots: Set[str], depth: int) -> None:
+        """helpers (followed three levels: `_apply_overrides(config, items)` -> `_apply_override(config, key, value)`) that
+        receive (a part of) the configuration"""
+        if depth > 3:
+            return
+        parts = _parts_of(caller, roots)
+        for c in calls_in(caller):
+            passed = [(i, None) for i, a in enumerate(c.args) if _container_root(a) in parts] + [(None, k.arg) for k in c.keywords if k.arg and _container_root(k.value) in parts]
+            if not passed:
+                continue
+            for m, node in repo.resolve_call(cmod, c):
+                if not isinstance(node, FuncNode) or node is fn:
+                    continue
+                params = [a.arg for a in node.args.posonlyargs + node.args.args]
+                if params and params[0] in ("self", "cls") and isinstance(c.func, ast.Attribute):
+                    params = params[1:]
+                # parameters that receive something computed at run time (a constant key chosen by the caller itself names
+                # an entry it decides to create - the flag-driven sections; that is not an override of the user's)
+                dyn = {params[i] for i, a in enumerate(c.args) if i < len(params) and not isinstance(a, ast.Constant)} | {k.arg for k in c.keywords if k.arg and not isinstance(k.value, ast.Constant)}
+                if any(isinstance(a, ast.Starred) for a in c.args) or any(k.arg is None for k in c.keywords):
+                    dyn = set(params) | {a.arg for a in node.args.kwonlyargs}
+                for i, k in passed:
+                    pname = k if k is not None else (params[i] if i is not None and i < len(params) else None)
+                    if not pname:
+                        continue
+                    prev = next((x for x in helpers if x[1] is node and x[2] == pname), None)
+                    if prev is None:
+                        helpers.append((m, node, pname, set(dyn)))
+                        collect(m, node, {pname}, depth + 1)
+                    else:
+                        prev[3].update(dyn)
+
+    collect(mod, fn, {CONFIG}, 1)
+    n = 0
+    for m, h, pname, dyn in helpers:
+        others = dyn - {pname, "self", "cls"}
+        hparts = _parts_of(h, {pname})
+        stores = []
+        for st in walk_no_nested(h):
+            if isinstance(st, ast.Assign):
+                for t in st.targets:
+                    if isinstance(t, ast.Subscript) and _container_root(t.value) in hparts and not isinstance(t.slice, (ast.Constant, ast.Slice)) and _flows_from(h, t.slice, others):
+                        stores.append((st, t))
+            elif isinstance(st, ast.Call) and isinstance(st.func, ast.Attribute) and st.func.attr in ("setdefault", "__setitem__", "update") and _container_root(st.func.value) in hparts and st.args and not isinstance(st.args[0], ast.Constant) and _flows_from(h, st.args[0], others):
+                stores.append((st, None))
+        if not stores:
+            continue
+        g = CFG(h, may_raise=lambda part: set())
+        from ..engine import qualname_of
+        hq = qualname_of(h)
+        for st, t in stores:
+            n += 1
+            if t is None:
+                R.violation(r, m.rel, hq, norm(st)[:100], "the entry is written with a method that creates it when it is absent (setdefault / update / __setitem__) under a key taken from the caller's key path: an override of a key the configuration does not contain is not rejected", st.lineno)
+                continue
+            K, T = norm(t.slice), norm(t.value)
+
+            def atom(e: ast.AST, K=K, T=T) -> Optional[bool]:
+                if not (isinstance(e, ast.Compare) and len(e.ops) == 1):
+                    return None
+                op, l, c = e.ops[0], e.left, e.comparators[0]
+                if isinstance(op, (ast.In, ast.NotIn)) and norm(l) == K:
+                    if isinstance(c, ast.Call) and isinstance(c.func, ast.Attribute) and c.func.attr == "keys" and not c.args:
+                        c = c.func.value
+                    if norm(c) == T:
+                        return isinstance(op, ast.In)
+                    return None
+
+                def is_len(x: ast.AST) -> bool:
+                    return isinstance(x, ast.Call) and call_name(x) == "len" and len(x.args) == 1 and norm(x.args[0]) == T
+                if norm(l) == K and is_len(c):
+                    if isinstance(op, ast.Lt):
+                        return True
+                    if isinstance(op, ast.GtE):
+                        return False
+                if is_len(l) and norm(c) == K:
+                    if isinstance(op, ast.Gt):
+                        return True
+                    if isinstance(op, ast.LtE):
+                        return False
+                return None
+            ids = g.nodes_for(st)
+            holds, path, guards = returns_only_through(g, atom, targets=ids)
+            R.check(holds and guards > 0, r, m.rel, hq, norm(st)[:100], f"`{norm(st)[:60]}` stores under the key `{K}` taken from the caller's key path and can be reached without a test that `{K}` is an entry of `{T}` (`{K} in {T}` / `{K} < len({T})`, other side raising): for a mapping a store under an absent key creates it, so `--set` with an unknown last segment (run_space.dry-run, run_space.max_run, a parameter the file does not spell out) is no longer rejected with the configuration-error exit - the block parsers ignore the stray key and the invocation is executed", st.lineno, path)
+    if n == 0:
+        raise AnalysisError("_run: no helper that stores into the configuration under a caller-supplied key (the --set override) was found")
+
+
+_GROW_METHODS = {"append", "add", "update", "setdefault", "extend", "insert", "appendleft", "__setitem__"}
+_DROPPING_ATTRS = {"annotation", "default"}
+
+
+def _is_signature_enumeration(f: ast.AST, it: ast.AST, depth: int = 0) -> bool:
+    """`<sig>.parameters`, `.parameters.values()` / `.items()`, `list(...)` of them, or a local bound to one."""
+    if depth > 3:
+        return False
+    if any(isinstance(x, ast.Attribute) and x.attr == "parameters" for x in ast.walk(it)):
+        return True
+    if isinstance(it, ast.Name):
+        return any(_is_signature_enumeration(f, v, depth + 1) for v in assigned_value(f, it.id))
+    return False
+
+
+def _element_attrs(f: ast.AST, e: ast.AST, evars: Set[str], depth: int = 0) -> Set[str]:
+    """Attributes of the enumerated element (`<evar>.<attr>`) the expression reads, directly or through locals."""
+    out: Set[str] = set()
+    if depth > 4:
+        return out
+    for x in ast.walk(e):
+        if isinstance(x, ast.Attribute) and isinstance(x.value, ast.Name) and x.value.id in evars:
+            out.add(x.attr)
+        elif isinstance(x, ast.Call) and call_name(x) == "getattr" and len(x.args) >= 2 and isinstance(x.args[0], ast.Name) and x.args[0].id in evars and isinstance(x.args[1], ast.Constant):
+            out.add(str(x.args[1].value))
+        elif isinstance(x, ast.Name) and x.id not in evars:
+            for v in assigned_value(f, x.id):
+                if v is not e:
+                    out |= _element_attrs(f, v, evars, depth + 1)
+    return out
+
+
+def _enumeration_findings(repo: Repo, mod, f: ast.AST, sinks: Optional[Set[str]], seen: Set[int], depth: int = 0) -> List[Tuple[bool, object, ast.AST, ast.AST, str]]:
+    """For every enumeration of signature parameters that feeds the value *f* returns (or the containers named by
+    *sinks*) - in *f* itself or in a function of the package whose result *f* walks to fill that value: the tests that
+    decide whether an enumerated parameter is listed at all.  (ok, module, function, construct, what) per enumeration /
+    per offending test."""
+    out: List[Tuple[bool, object, ast.AST, ast.AST, str]] = []
+    if id(f) in seen or depth > 3:
+        return out
+    seen.add(id(f))
+    fed: Set[str] = set(sinks or ())
+    ret_exprs: List[ast.AST] = []
+    for n in walk_no_nested(f):
+        if sinks is None and isinstance(n, ast.Return) and n.value is not None:
+            ret_exprs.append(n.value)
+            fed |= {x.id for x in ast.walk(n.value) if isinstance(x, ast.Name)}
+    # locals the fed containers are built from (`details = OrderedDict(pairs)`, `return dict(items)`)
+    for _ in range(3):
+        for name in list(fed):
+            for v in assigned_value(f, name):
+                if not isinstance(v, (ast.ListComp, ast.SetComp, ast.DictComp, ast.GeneratorExp)):
+                    fed |= {x.id for x in ast.walk(v) if isinstance(x, ast.Name) and isinstance(v, (ast.Call, ast.Name, ast.BinOp, ast.Dict, ast.List, ast.Tuple)) and not (isinstance(v, ast.Call) and x is v.func)}
+
+    def callee_funcs(it: ast.AST) -> List[Tuple[object, ast.AST]]:
+        cands = [it] + (assigned_value(f, it.id) if isinstance(it, ast.Name) else [])
+        res: List[Tuple[object, ast.AST]] = []
+        for c in cands:
+            inner = c
+            while isinstance(inner, ast.Call) and call_name(inner) in ("list", "tuple", "sorted", "reversed", "enumerate", "iter", "dict", "OrderedDict") and inner.args:
+                inner = inner.args[0]
+            if isinstance(inner, ast.Call) and isinstance(inner.func, ast.Attribute) and inner.func.attr in ("items", "keys", "values") and not inner.args:
+                v = inner.func.value
+                inner = v if isinstance(v, ast.Call) else (next((a for a in assigned_value(f, v.id) if isinstance(a, ast.Call)), inner) if isinstance(v, ast.Name) else inner)
+            if isinstance(inner, ast.Call):
+                res += [(m, t) for m, t in repo.resolve_call(mod, inner) if isinstance(t, FuncNode)]
+        return res
+
+    def judge(test: ast.AST, evars: Set[str], where: ast.AST, label: str) -> None:
+        attrs = _element_attrs(f, test, evars) & _DROPPING_ATTRS
+        if attrs:
+            out.append((False, mod, f, test, f"whether an enumerated parameter is listed depends on its {' / '.join(sorted(attrs))} (`{norm(test)[:70]}`, {label})"))
+
+    g: Optional[CFG] = None
+    for n in walk_no_nested(f):
+        if isinstance(n, (ast.For, ast.AsyncFor)):
+            growth = []
+            for st in ast.walk(n):
+                if isinstance(st, ast.Assign) and any(isinstance(t, ast.Subscript) and _container_root(t.value) in fed for t in st.targets):
+                    growth.append(st)
+                elif isinstance(st, ast.Expr) and isinstance(st.value, ast.Call) and isinstance(st.value.func, ast.Attribute) and st.value.func.attr in _GROW_METHODS and _container_root(st.value.func.value) in fed:
+                    growth.append(st)
+                elif isinstance(st, (ast.Yield,)) and sinks is None:
+                    growth.append(stmt_of(st) or st)
+            if not growth:
+                continue
+            evars = {x.id for x in ast.walk(n.target) if isinstance(x, ast.Name)}
+            if _is_signature_enumeration(f, n.iter):
+                if g is None:
+                    g = CFG(f, may_raise=lambda part: set())
+                heads = [i for i in g.nodes_for(n) if g.nodes[i].kind == "for"]
+                gids = {i for st in growth for i in g.nodes_for(st)}
+                if not heads or not gids:
+                    continue
+                head = heads[0]
+                body = set(g.reach([t for t, lab in g.succ[head] if lab == "T"], blocked={head}))
+                n_bad = len(out)
+                for nid in body:
+                    nd = g.nodes[nid]
+                    if nd.kind != "if" or nd.part is None:
+                        continue
+                    fates = {}
+                    for t, lab in g.succ[nid]:
+                        if lab not in ("T", "F"):
+                            continue
+                        lists = t in gids or bool(gids & set(g.reach([t], blocked={head})))
+                        if t in gids:
+                            drops = False
+                        else:
+                            drops = t == head or head in g.reach([t], blocked=gids)
+                        fates[lab] = (lists, drops)
+                    if any(l for l, _d in fates.values()) and any(d and not l for l, d in fates.values()):
+                        judge(nd.part, evars, nd.ast, "one branch goes on to the next parameter without listing this one")
+                if len(out) == n_bad:
+                    out.append((True, mod, f, n, ""))
+            else:
+                for m2, t2 in callee_funcs(n.iter):
+                    out += _enumeration_findings(repo, m2, t2, None, seen, depth + 1)
+        elif isinstance(n, (ast.ListComp, ast.SetComp, ast.DictComp, ast.GeneratorExp)):
+            feeds = any(any(x is n for x in ast.walk(rv)) for rv in ret_exprs) or any(any(x is n for x in ast.walk(v)) for name in fed for v in assigned_value(f, name))
+            if not feeds:
+                continue
+            for gen in n.generators:
+                evars = {x.id for x in ast.walk(gen.target) if isinstance(x, ast.Name)}
+                if _is_signature_enumeration(f, gen.iter):
+                    n_bad = len(out)
+                    for t in gen.ifs:
+                        judge(t, evars, n, "comprehension filter")
+                    if len(out) == n_bad:
+                        out.append((True, mod, f, n, ""))
+                else:
+                    for m2, t2 in callee_funcs(gen.iter):
+                        out += _enumeration_findings(repo, m2, t2, None, seen, depth + 1)
+    return out
+
+
+def metadata_lists_every_parameter_rule(repo: Repo, R: Report) -> None:
+    """The missing-key gate asks for the context keys of the parameters listed in a component's `parameters` metadata
+    (build_pipeline_inspection walks exactly that mapping); at run time the node resolves every parameter of the
+    processing signature - selected by name and kind only.  A parameter that the metadata drops because of its
+    annotation (un-annotated) or its default (required) is resolved at run time but never asked for: the pre-flight
+    check passes, the node fails after its predecessors ran."""
+    from ..engine import qualname_of
+
+    r = R.rule("C17-D4-parameter-metadata-lists-every-parameter", "whether a parameter of the processing signature appears in the `parameters` metadata of a component (what build_pipeline_inspection classifies and the missing-key gate asks for) is decided by its name and kind only, as at run time: in every function that produces the value stored under \"parameters\" - followed into the functions of the package whose result it walks to fill that value - no test that makes the enumeration of `inspect.signature(..).parameters` skip an element reads the parameter's annotation or default; an un-annotated / default-less parameter dropped there is still resolved from the context at run time but never reported as a required key, so the pre-flight check lets a configuration through that fails after nodes have executed", 2)
+    builders: List[Tuple[object, ast.AST, Optional[Set[str]]]] = []
+
+    def add(m, f, sinks):
+        if not any(b[1] is f and b[2] == sinks for b in builders):
+            builders.append((m, f, sinks))
+
+    for mod in repo.modules.values():
+        for f in [x for x in ast.walk(mod.tree) if isinstance(x, FuncNode)]:
+            vals: List[ast.AST] = []
+            for n in walk_no_nested(f):
+                if isinstance(n, ast.Dict):
+                    vals += [v for k, v in zip(n.keys, n.values) if isinstance(k, ast.Constant) and k.value == "parameters"]
+                elif isinstance(n, ast.Assign) and any(isinstance(t, ast.Subscript) and isinstance(t.slice, ast.Constant) and t.slice.value == "parameters" for t in n.targets):
+                    vals.append(n.value)
+            for v in vals:
+                scope, cands = f, [v]
+                if isinstance(v, ast.Name):
+                    cands = assigned_value(f, v.id)
+                    if not cands:
+                        # a closure variable: built in an enclosing function
+                        for a in _anc(f):
+                            if isinstance(a, FuncNode) and assigned_value(a, v.id):
+                                scope, cands = a, assigned_value(a, v.id)
+                                break
+                for c in cands:
+                    if isinstance(c, ast.Call):
+                        targets = [(m, t) for m, t in repo.resolve_call(mod, c) if isinstance(t, FuncNode)]
+                        for m, t in targets:
+                            add(m, t, None)
+                        if not targets and isinstance(v, ast.Name) and not c.args and (call_name(c) or "").split(".")[-1] in ("OrderedDict", "dict"):
+                            add(mod, scope, frozenset({v.id}))
+                    elif isinstance(c, (ast.Dict, ast.DictComp)) and isinstance(v, ast.Name):
+                        add(mod, scope, frozenset({v.id}))
+    n = 0
+    seen: Set[int] = set()
+    for m, f, sinks in builders:
+        for ok, fm, ff, node, what in _enumeration_findings(repo, m, f, set(sinks) if sinks is not None else None, seen if sinks is None else set()):
+            n += 1
+            qn = qualname_of(ff)
+            if ok:
+                R.ok(r, fm.rel, qn, norm(node)[:80], "", getattr(node, "lineno", ff.lineno))
+            else:
+                R.violation(r, fm.rel, qn, norm(node)[:100], f"{what}: the value ends up as the `parameters` metadata of a component ({qualname_of(f)} in {m.rel}); a parameter without a type hint / without a default is then missing from it although the node resolves it at run time (the run-time enumeration selects by name and kind only) - inspection never reports its context key as required, the missing-key gate of `semantiva run` passes and the run fails with the run-time exit code after earlier nodes have written their output", getattr(node, "lineno", ff.lineno))
+    if n == 0:
+        raise AnalysisError("no enumeration of signature parameters feeding a `parameters` metadata entry was found")
